@@ -43,9 +43,22 @@ var rrComponents = map[string][3]string{
 	"Sacramento": {"runoff", "surfaceRunoff", "baseflow"},
 }
 
+func len5(T int) int { return 5 * T }
+
+var forceDrought = false
+
 func rrSeries(r *rand.Rand, T int) (rain, pet []float64, style string) {
 	rain, pet = make([]float64, T), make([]float64, T)
-	style = []string{"mixed", "dry-spells", "storms", "drizzle", "no-pet", "wet"}[r.Intn(6)]
+	style = []string{"mixed", "dry-spells", "storms", "drizzle", "no-pet", "wet", "wet-then-drought"}[r.Intn(7)]
+	if forceDrought {
+		style = "wet-then-drought"
+	}
+	if style == "wet-then-drought" {
+		// a long period: a wet season that fills every store, then a drought several times as long (hardly any rain,
+		// steady evaporative demand) during which the stores feed each other and the evapotranspiration
+		T = len5(T)
+		rain, pet = make([]float64, T), make([]float64, T)
+	}
 	dry := 0
 	for t := 0; t < T; t++ {
 		switch style {
@@ -65,6 +78,12 @@ func rrSeries(r *rand.Rand, T int) (rain, pet []float64, style string) {
 			}
 		case "drizzle":
 			rain[t] = r.Float64() * 2
+		case "wet-then-drought":
+			if t < T/4 {
+				rain[t] = 4 + r.Float64()*30
+			} else if r.Intn(25) == 0 {
+				rain[t] = r.Float64() * 3
+			}
 		case "wet": // sustained rain with next to no evaporation: nearly everything must come out again, and no more
 			rain[t] = 6 + r.Float64()*34
 		default:
@@ -108,8 +127,42 @@ func rrlawsEngine(args []string) error {
 			}
 			par := func(n string) float64 { return mc.PVals[pidx[n]][0][0] }
 			setPar := func(n string, v float64) { mc.PVals[pidx[n]][0][0] = v }
+			forceDrought = name == "Sacramento" && c%3 == 0
 			rain, pet, style := rrSeries(r, T)
+			forceDrought = false
+			T := len(rain)
 			variant := "drawn"
+			// corners of the parameter box: every scalar parameter sits in the lowest or the highest tenth of its range
+			// with probability 1/3 each (regimes such as "fast supplementary recession, huge slow primary store, hardly
+			// any reserved water" are practically never met by independent uniform draws)
+			for pi, p := range desc.Parameters {
+				if len(p.Dimensions) > 0 || (name == "GR4J" && p.Name == "X4") {
+					continue
+				}
+				rg := paramRange(name, p)
+				switch r.Intn(3) {
+				case 0:
+					mc.PVals[pi][0][0] = rg.lo + (rg.hi-rg.lo)*0.1*r.Float64()
+				case 1:
+					mc.PVals[pi][0][0] = rg.hi - (rg.hi-rg.lo)*0.1*r.Float64()
+				}
+			}
+			// rate constants and fractions whose default is small (recession ratios, percolation shares): log-uniform over
+			// [default/20, 1] in half of the cases -- a uniform draw over [0,1] hardly ever gives a slow store
+			if c%2 == 0 {
+				for pi, p := range desc.Parameters {
+					if len(p.Dimensions) == 0 && p.Range[0] == 0 && p.Range[1] == 1 && p.Default > 0 && p.Default <= 0.1 {
+						if _, cur := curated[name][p.Name]; !cur {
+							mc.PVals[pi][0][0] = math.Exp(uni(r, math.Log(p.Default/20), 0))
+						}
+					}
+				}
+			}
+			if name == "GR4J" && c%2 == 1 {
+				// the documented ranges, capacities log-uniform (production stores of a few mm under extreme storms)
+				setPar("X1", math.Exp(uni(r, 0, math.Log(1500))))
+				setPar("X3", math.Exp(uni(r, 0, math.Log(500))))
+			}
 			if name == "GR4J" {
 				switch c % 3 {
 				case 0: // the exact-closure clause: no exchange, no evaporation
